@@ -762,6 +762,8 @@ def cacheStep (st : DState) (op : String) (f : List Text) : Option (DState × St
   | "q.atomic", [c, _, reg, name] =>
     let σ' := Claim.step st.claim (.startAtomic (intOfText c).toNat ⟨reg, name⟩)
     some ({ st with claim := σ' }, if σ'.wins.length > st.claim.wins.length then "T" else "F")
+  | "q.store", _ :: reg :: name :: vs => some ({ st with claim := Claim.step st.claim (.store ⟨reg, name⟩ vs) }, "ok")
+  | "q.mark", [_, reg, name] => some ({ st with claim := Claim.step st.claim (.mark ⟨reg, name⟩) }, "ok")
   | "q.release", [_, reg, name] => some ({ st with claim := Claim.step st.claim (.release ⟨reg, name⟩) }, "ok")
   | "q.dump", [] => some (st, dumpDb st.claim.db)
   | "latest.same", [a, b] =>
